@@ -57,7 +57,7 @@ def run_check(pid, tier, replay=None):
         if not quick:
             vocab = vocab + PLURALS
         d = scratch.sub("cc")
-        write_cfg(d, 3, 2 if quick else 3, ["a", "b"], ["1"], vocab, 3 if quick else 3)
+        write_cfg(d, 3, 3, ["a", "b"], ["1"], vocab, 3)   # (words of three characters: a digit inside a word, e.g. "a1b")
         res = C.run_tlc(d, "CaseConv", "C.cfg", timeout=3000)
         if not res.ok:
             raise C.Inconclusive("CaseConv.tla violates its own property (%s): specification alarm\n%s" % (res.violated, res.out[-1500:]))
@@ -103,7 +103,7 @@ def run_check(pid, tier, replay=None):
             "exhaustive": True,
             "rule": "all lists of 1-3 words of length 1-%d over {a, b, 1} (first character a letter) x six schemes; all identifiers of 1-3 items "
                     "from the vocabulary (initialisms + capitalised words) whose segmentation over the vocabulary is unique; non-trivial = "
-                    "two or more words / items" % (2 if quick else 3),
+                    "two or more words / items" % 3,
             "vocabulary": vocab, "ambiguous_identifiers_skipped": len(ambiguous), "encoder_divergences": diverg, "crashes": len(crashes),
             "checker_cmd": "tlc CaseConv (one initial state per case; CONSTRAINT Emit) ; vh caseconv cases results",
         }
